@@ -38,12 +38,14 @@ ASSUMPTIONS = ["element symbols are upper case, 1-2 characters, without blanks o
                "coordinates are float32 values (AtomArray.coord), which is what rules out the 99999.99996 -> '100000.0000' carry",
                "metadata values: non-empty lines without leading/trailing blanks, not starting with '>' or '$$$$'; "
                "header fields within their column widths, without surrounding blanks; no line-break characters anywhere"]
-TECHNIQUE = ("Lean 4 proof (induction over digit strings, token lists, line lists; refinement of the slice-based reader "
-             "against the f-string writer) + text-level correspondence + write/read oracle")
-LEVEL_TEXT = ("Theorems (all inputs, no size bound): V2000 column layout, version switch, CHG batching, CTAB write->read "
-              "round trip for V2000 and V3000, metadata-key, metadata, record-splitting and header round trips; tables "
-              "regenerated from ctab.py / rdkit/mol.py with decide obligations. The RDKit bridge itself and the float32 "
-              "re-rounding of read coordinates are tied by the oracle only (partial).")
+TECHNIQUE = ("Lean 4 proof (induction over digit strings, token lists and batches; decide on the tables regenerated from the "
+             "source) + text-level correspondence of writer and reader + write/read oracle")
+LEVEL_TEXT = ("Theorems (all inputs, no size bound): bond/charge/RDKit table obligations on the regenerated tables, reader slices = "
+              "writer fields, V2000 column layout (line widths, counts/version/bond fields read back), version switch, CHG "
+              "batching. The general write->read round-trip theorems (CTAB both versions, metadata key, metadata, records) are "
+              "NOT proved: they hold by kernel evaluation on concrete molecules/keys only and are otherwise tied by the "
+              "text-level correspondence of writer and reader and by the write->read oracle on the real code. The RDKit "
+              "bridge and the float32 re-rounding of read coordinates are oracle-only (partial).")
 LEVEL_NOTE = ("modelled-not-verified: Python float/int formatting and parsing, str methods on ASCII, numpy U2/uint32 stores, "
               "BondList normalisation; RDKit external")
 
@@ -482,7 +484,8 @@ def _mol_case(rng, mol, kind="mol", big=False):
             st = {}
             r = rng.random()
             if r < 0.3:
-                st["block_charges"] = True
+                st["block_charges"] = True       # foreign style: charges only in the atom block (codes 1-3, 5-7)
+                rmol = dict(mol, charges=[max(-3, min(3, c)) for c in mol["charges"]])
             elif r < 0.4:
                 st["both"] = True
             elif r < 0.5:
@@ -611,7 +614,9 @@ def _sdf_case(rng, n_rec):
     names = set()
     for _ in range(n_rec):
         h = _header(rng)
-        while h["mol_name"] in names or h["mol_name"].startswith("M  END"):
+        if rng.random() < 0.2:      # header lines that look like the end of a CTAB
+            h[rng.choice(["mol_name", "comments"])] = "M  END" + rng.choice(["", " 2", "ING"])
+        while h["mol_name"] in names:
             h = _header(rng)
             if rng.random() < 0.5:
                 h["mol_name"] = _name(rng)
